@@ -25,7 +25,7 @@ RULE = ('(1) every identifier over {a,b,A,B,_,1} up to length 4 (6 in the thorou
         'macro = serde = model; (2) generated struct / enum definitions over the attribute grammar (rename, rename_all, rename_all_fields, variant rename_all, skip, '
         'skip_serializing, skip_deserializing, default on field and container, skip_serializing_if, flatten, Option, schema_with, r#raw names, the four enum '
         'representations, unit / newtype / tuple / struct variants, attributes split over several #[serde] lists, components, doc comments): the generated schema shape '
-        'against serde_derive\'s own reading and against the model; (3) a catalogue of 26 compiled types with values: validation, key sets, requiredness probes; '
+        'against serde_derive\'s own reading and against the model; (3) a catalogue of 31 compiled types with values: validation, key sets, requiredness probes; '
         'non-trivial = a definition with a rename rule or >= 2 attributes, or an identifier that the rule changes')
 ASSUMPTIONS = ['supported grammar (reading): one name per item (rename = "x" or rename(serialize = ..) alone; a split serialize/deserialize rename is refused by the derive with a compile error), '
                'Option written as `Option<T>`, enums of at most 4 data-carrying variants (the builder API takes tuples up to 4), field types that implement Schema',
@@ -57,8 +57,8 @@ def gen_field(rng, idents, named=True, allow_flatten=True):
     elif k < 0.26: f['skip_de'] = True
     if r() < 0.2: f['default'] = True
     if r() < 0.2 and not f['skip'] and not f['skip_ser']: f['skip_if'] = True
-    if named and allow_flatten and r() < 0.08 and not (f['skip'] or f['skip_ser'] or f['skip_de'] or f['skip_if'] or f['rename'] is not None or option):
-        f['flatten'] = True; f['ty'] = f['inner'] = 'Inner'; f['default'] = False
+    if named and allow_flatten and r() < 0.08 and not (f['skip'] or f['skip_ser'] or f['skip_de'] or f['skip_if'] or f['rename'] is not None):
+        f['flatten'] = True; f['inner'] = 'Inner'; f['option'] = rng.random() < 0.4; f['ty'] = 'Option<Inner>' if f['option'] else 'Inner'; f['default'] = False
     elif r() < 0.1: f['with'] = True
     return f
 
@@ -189,7 +189,7 @@ def E(variants, **kw):
 def corpus():
     import random
     rng = random.Random(16)
-    out = [{'case': {'kind': 'catalogue', 'idx': i}, 'stream': 'catalogue'} for i in range(26)]
+    out = [{'case': {'kind': 'catalogue', 'idx': i}, 'stream': 'catalogue'} for i in range(31)]
     N = lambda *fs: {'named': list(fs)}
     U = lambda *tys: {'unnamed': [F('', t) for t in tys]}
     seeds = [  # the definitions behind the repairs, kept as regression inputs
@@ -227,7 +227,7 @@ def canon(s):
     if 'oneOf' in s: return {'oneOf': [canon(x) for x in s['oneOf']]}
     if 'anyOf' in s: return {'anyOf': [canon(x) for x in s['anyOf']]}
     if 'array' in s: return {'array': canon(s['array'])}
-    if 'ty' in s: return {'ty': s['ty']}
+    if 'ty' in s: return {'ty': s['ty'], 'optional': True} if s.get('optional') else {'ty': s['ty']}
     if 'with' in s: return {'with': True}
     if 'extend' in s: return {'extend': canon(s['extend']), 'name': s['entry']['name'], 'schema': canon(s['entry']['schema'])}
     if 'component' in s: return canon(s['schema'])
@@ -250,7 +250,7 @@ def exp_fields(style, vfs, dfs, cdefault):
         props, flat = [], []
         for vf, df in zip(vfs, dfs):
             if vf['skip_ser']: continue
-            if vf['flatten'] and not df['with']: flat.append({'ty': df['inner']}); continue
+            if vf['flatten'] and not df['with']: flat.append({'ty': df['inner'], 'optional': True} if vf['option'] else {'ty': df['inner']}); continue
             lenient = vf['option'] or vf['default'] or cdefault or vf['skip_if'] or vf['skip_de']
             props.append({'name': vf['ser'], 'required': not lenient, 'schema': {'with': True} if df['with'] else {'ty': df['inner']}})
         return {'obj': props, 'flat': flat}
@@ -265,8 +265,8 @@ def expected(view, d):
     data = ser['data']
     if 'struct' in data: return exp_fields(data['struct'], data['fields'], flist(d['fields']), ser['container_default']), None
     vs = [(vv, dv) for vv, dv in zip(data['enum'], d['variants']) if not vv['skip_ser']]
-    if all(vv['style'] == 'unit' for vv in data['enum']): return {'enum': [vv['ser'] for vv, _ in vs]}, None
     mode, out, kf = ser['tag'], [], None
+    if mode == 'external' and all(vv['style'] == 'unit' for vv in data['enum']): return {'enum': [vv['ser'] for vv, _ in vs]}, None          # only then serde writes bare names
     for vv, dv in vs:
         content = exp_fields(vv['style'], vv['fields'], flist(dv['fields']), False)
         tag, unit = vv['ser'], vv['style'] == 'unit'
@@ -385,8 +385,8 @@ def model_serde_view(view, d):
     def keys(vfs, cdefault): return [[vf['ser'], not (vf['option'] or vf['default'] or cdefault or vf['skip_if'] or vf['skip_de'])] for vf in vfs if not vf['skip_ser'] and not vf['flatten']]
     if 'struct' in data: return {'keys': keys(data['fields'], ser['container_default'])} if data['struct'] == 'struct' else None
     vs = [vv for vv in data['enum'] if not vv['skip_ser']]
-    if all(vv['style'] == 'unit' for vv in data['enum']): return {'names': [vv['ser'] for vv in vs]}
     mode, out = ser['tag'], []
+    if mode == 'external' and all(vv['style'] == 'unit' for vv in data['enum']): return {'names': [vv['ser'] for vv in vs]}
     for vv in vs:
         tag, unit = vv['ser'], vv['style'] == 'unit'
         if mode == 'untagged': w = 'content'
